@@ -12,6 +12,9 @@ package standard
 //@   guarded_by signedValidatorRegistrationsMu: signedValidatorRegistrations
 //@   guarded_by controlledValidatorsMu: controlledValidators (replaced)
 //@   // established by New (parseAndCheckParameters rejects nil for these; the cache map is made there)
+//@   // the registration caches are made by New and only ever filled by generateValidatorRegistrationForRelay, which
+//@   // keeps every signed registration under the root of its own content (proved there)
+//@   valid regCacheOK(self)
 //@   valid self.chainTime != nil && self.accountsProvider != nil && self.validatingAccountsProvider != nil && self.builderBidProvider != nil && self.builderBidsCache != nil && self.validatorRegistrationSigner != nil
 //@
 //@ spec func fetchedCfg() blockrelay.ExecutionConfigurator
